@@ -22,7 +22,7 @@ type C15Case struct {
 }
 
 var c15Kinds = []string{"absent", "present-valid", "present-garbage", "unwritable-EACCES", "unwritable-EROFS",
-	"dir-at-output", "log-unwritable", "log-is-dir", "mid-write", "stat-src-error", "open-EMFILE", "commit-error", "output-links-to-setup", "stdout-unwritable", "interrupted", "go-tool-failing", "log-device-full", "output-dangling-link"}
+	"dir-at-output", "log-unwritable", "log-is-dir", "mid-write", "stat-src-error", "open-EMFILE", "commit-error", "output-links-to-setup", "stdout-unwritable", "interrupted", "go-tool-failing", "log-device-full", "output-dangling-link", "timers-fire-early"}
 
 var outVariants = []string{"same-dir", "subdir", "other-pkg", "outside", "parent-missing", "abs-same-dir", "dotdot-outside"}
 
@@ -92,6 +92,11 @@ func genC15(cfg Config, ws *WorldSet, i, perWorld int) C15Case {
 	var runEnv []string
 	steps := []Step{{Op: "symlink", Path: "{W}/elsewhere/modlink", Data: []byte("{W}/mod")}, {Op: "write", Path: "{W}/elsewhere/outside/keep.txt", Data: []byte("a directory that a lexically collapsed ../outside would name\n")}}
 	plan := &sim.Plan{Markers: genMarkers(r, 4)}
+	// whatever clock the tree may read (it reads none today) shows a seeded instant in
+	// half of the cases: long before or after the time stamps of the files
+	if ck := sim.Derive(cfg.Seed, "C15", "clock", i); ck.Bool() {
+		plan.ClockSet, plan.ClockStart, plan.ClockStepNs = true, sim.Pick(ck, clockInstants), int64(sim.Pick(ck, []int{1000, 1000000, 999999999}))
+	}
 	base := strings.SplitN(kind, "/", 2)[0]
 	if strings.Contains(kind, "other-pkg") {
 		steps = append(steps, Step{Op: "write", Path: "{W}/mod/zz_elsewhere/keep.go", Data: []byte("package zz_elsewhere\n")})
@@ -202,6 +207,13 @@ func genC15(cfg Config, ws *WorldSet, i, perWorld int) C15Case {
 				steps = append(steps, Step{Op: "symlink", Path: iv.OutPath, Data: []byte("{W}/outside/generated_elsewhere.go")})
 				plan.Faults = append(plan.Faults, sim.Fault{Op: "OUTPUT-OPEN", Path: iv.OutPath, Kind: "open_err", Errno: sim.Pick(r, []string{"EACCES", "EROFS", "ENOSPC"})})
 			}
+		case "timers-fire-early":
+			// whatever timeout, deadline or timer the tree arms fires at once (the
+			// rest of the world was slow). Today's tree arms none: a plain run
+			if r.Chance(2, 3) {
+				present()
+			}
+			plan.TimersEarly = true
 		case "go-tool-failing":
 			// the subprocess convergen depends on (go list, go env) is the one part of
 			// its I/O that no seam intercepts: a stand-in go command first in PATH fails,
@@ -234,7 +246,7 @@ func genC15(cfg Config, ws *WorldSet, i, perWorld int) C15Case {
 		}
 	}
 	bin := "sim"
-	if len(plan.Faults) == 0 {
+	if len(plan.Faults) == 0 && !plan.TimersEarly {
 		switch r.Intn(8) {
 		case 0:
 			c.Twin = true
